@@ -14,6 +14,7 @@ import (
 	"verifharness/drv"
 	"verifharness/e1"
 	"verifharness/e4"
+	"verifharness/e5"
 	"verifharness/e6"
 	"verifharness/report"
 	"verifharness/run"
@@ -28,6 +29,7 @@ func main() {
 	replay := flag.String("replay", "", "file with one abstract operation per line to replay")
 	props := flag.String("props", "", "properties whose oracles are evaluated (comma separated; empty = all)")
 	variant := flag.String("variant", "fixed", "model variant (legacy only for regression witnesses)")
+	cliBin := flag.String("cli", "", "toxiproxy-cli binary built from /repo (engine e5)")
 	flag.Parse()
 	zerolog.SetGlobalLevel(zerolog.Disabled) // the bandwidth toxic logs through the global logger
 	res := report.New(*engine, *tier, *seed)
@@ -62,6 +64,22 @@ func main() {
 		}
 		eng = e
 		sweep = func() { e.Sweep(*tier, *seed, res); res.DriverLines = d.Sent }
+	case "e5":
+		d, err := drv.Start(*driver, "e5")
+		if err != nil {
+			fmt.Fprintln(os.Stderr, err)
+			os.Exit(2)
+		}
+		defer d.Close()
+		e := e5.New(d, *cliBin)
+		defer e.Close()
+		e.CliVariant = *variant
+		if *out != "" {
+			e.CurFile = *out + ".cur"
+			defer os.Remove(e.CurFile)
+		}
+		eng = e
+		sweep = func() { e5.Sweep(e, *tier, *seed, res); res.DriverLines = d.Sent }
 	case "e6":
 		d, err := drv.Start(*driver, "e6")
 		if err != nil {
